@@ -78,7 +78,7 @@ def message_lines(out_lines):
 def check_state(conn, ref, case, V):
     """Compare the connection's object table (through the Connection interface) with
     the reference."""
-    probe_ids = set(ref.objs) | set(ot.CLIENT_IDS) | set(ot.SERVER_IDS) | {6}
+    probe_ids = set(ref.objs) | set(ot.CLIENT_IDS) | set(ot.SERVER_IDS) | {6, 0xffffffff}
     for oid in sorted(probe_ids):
         incs = ref.objs.get(oid, [])
         alive_n = 0
@@ -197,6 +197,8 @@ def nontrivial(hist):
 def make_expand(variant, kinds=None, alphabet_kw=None):
     """BFS expansion: enabled events come from the reference state reached by hist."""
     alphabet_kw = alphabet_kw or {}
+    if variant.get('server_ids'):
+        alphabet_kw = dict(alphabet_kw, server_ids=tuple(variant['server_ids']))
 
     if variant.get('late_registry'):
         alphabet_kw = dict(alphabet_kw, late_registry=True, client_ids=(2, 3), server_ids=(ot.SERVER_BASE,), with_foreign=False)
@@ -217,6 +219,8 @@ def make_expand(variant, kinds=None, alphabet_kw=None):
 
 
 VARIANTS = {
+    # the last id of the server range, and the last but one
+    'client_top_server_ids': {'dialect': 'mid', 'server_ids': [0xffffffff, 0xfffffffe]},
     # creating / mentioning messages carry strings (with separators inside), a nil and a number after the argument that
     # matters; strings containing `"` are outside C01's alphabet and therefore not used here either
     'client_decorated': {'dialect': 'cur', 'decor': [['str', '13 panel, (x'], ['nil'], ['int', 2], ['str', 'a, b)']]},
